@@ -101,6 +101,23 @@ func (fa *FA) condFacts(cond ssa.Value, truth bool, out *edgeFacts) {
 		default:
 			return
 		}
+		// the single-compare range check uint(a) < uint(b) with b ≥ 0: a negative a wraps above every such b,
+		// so on this side 0 ≤ a < b holds for the signed operands themselves
+		if op == token.LSS || op == token.GTR || op == token.LEQ || op == token.GEQ {
+			lo, hi := c.X, c.Y // lo (<|≤) hi
+			if op == token.GTR || op == token.GEQ {
+				lo, hi = c.Y, c.X
+			}
+			if a, b, ok := unsignedRangeIdiom(lo, hi); ok {
+				la, lb := fa.expand(a), fa.expand(b)
+				out.ineq = append(out.ineq, ineqGE(la, linConst(0)))
+				if op == token.LSS || op == token.GTR {
+					out.ineq = append(out.ineq, ineqLT(la, lb))
+				} else {
+					out.ineq = append(out.ineq, ineqLE(la, lb))
+				}
+			}
+		}
 		switch op {
 		case token.EQL:
 			out.ineq = append(out.ineq, ineqLE(x, y), ineqLE(y, x))
@@ -995,4 +1012,43 @@ func typeIsPtrTo(t types.Type, name string) bool {
 	}
 	n, ok := p.Elem().(*types.Named)
 	return ok && n.Obj().Name() == name
+}
+
+// unsignedRangeIdiom recognises uintN(a) compared below uintN(b) where a and b
+// are signed integers of the same width N and b is a length, a capacity or a
+// non-negative constant.
+func unsignedRangeIdiom(lo, hi ssa.Value) (a, b ssa.Value, ok bool) {
+	ca, okA := lo.(*ssa.Convert)
+	if !okA {
+		return nil, nil, false
+	}
+	ba, sa := intBits(ca.X.Type())
+	br, sr := intBits(ca.Type())
+	if !isInteger(ca.X.Type()) || !isInteger(ca.Type()) || !sa || sr || ba != br {
+		return nil, nil, false
+	}
+	nonNeg := func(v ssa.Value) bool {
+		if c, isCall := v.(*ssa.Call); isCall {
+			if bi, isB := c.Call.Value.(*ssa.Builtin); isB && (bi.Name() == "len" || bi.Name() == "cap") {
+				return true
+			}
+		}
+		if k, isK := constInt(v); isK && k >= 0 {
+			return true
+		}
+		return false
+	}
+	switch h := hi.(type) {
+	case *ssa.Convert:
+		bb, sb := intBits(h.X.Type())
+		bh, sh := intBits(h.Type())
+		if isInteger(h.X.Type()) && sb && !sh && bb == bh && bh == br && nonNeg(h.X) {
+			return ca.X, h.X, true
+		}
+	case *ssa.Const:
+		if k, isK := constInt(h); isK && k >= 0 {
+			return ca.X, h, true
+		}
+	}
+	return nil, nil, false
 }
